@@ -40,6 +40,8 @@ type SpecEnv struct {
 	depth   int
 	nbound  *int
 	Results []TVal
+	LoopPhis    map[ssa.Value]Val // header phis of the enclosing loop at loop entry (for oldloop)
+	PhiOverride map[ssa.Value]Val
 }
 
 type specErr struct{ msg string }
@@ -479,6 +481,9 @@ func (fc *FnCtx) lookupLocal(env *SpecEnv, name string) (TVal, bool) {
 		for _, in := range at.Instrs {
 			if phi, ok := in.(*ssa.Phi); ok {
 				if phi.Comment == name {
+					if v, ok := env.PhiOverride[phi]; ok {
+						return TVal{T: v.T, Ty: phi.Type()}, true
+					}
 					if v, ok := fc.vals[phi]; ok {
 						return TVal{T: v.T, Ty: phi.Type()}, true
 					}
@@ -540,6 +545,9 @@ func (fc *FnCtx) lookupLocal(env *SpecEnv, name string) (TVal, bool) {
 		}
 	}
 	if best != nil {
+		if v, ok := env.PhiOverride[best]; ok {
+			return TVal{T: v.T, Ty: best.Type(), P: v.P}, true
+		}
 		v := fc.val(best)
 		return TVal{T: v.T, Ty: best.Type(), P: v.P}, true
 	}
@@ -709,6 +717,9 @@ func (env *SpecEnv) index(v, i TVal) TVal {
 	if v.Kind == KSet {
 		return TVal{T: Select(v.T, i.T), Ty: tBool}
 	}
+	if v.Kind == KArr {
+		return TVal{T: Select(v.T, fc.toInt(i.T)), Ty: v.Ty}
+	}
 	env.fail("index of %s", v.Ty)
 	return TVal{}
 }
@@ -782,7 +793,12 @@ func (env *SpecEnv) inState(name string) *SpecEnv {
 	if st == nil {
 		env.fail("no %q state available here", name)
 	}
-	return env.with(st)
+	n := env.with(st)
+	if name == "loop" {
+		// loop-carried variables denote their values at loop entry
+		n.PhiOverride = env.LoopPhis
+	}
+	return n
 }
 
 func (env *SpecEnv) call(c SCall) TVal {
